@@ -136,6 +136,12 @@ def cmp_c02(case, i, m):
         return ("values", f"path `{case['pathText']}` from {case['focus']}: code reaches {i['values']} but the denotation is {m['values']}")
     if i["count"] != m["count"]:
         return ("count", f"path `{case['pathText']}`: code counts {i['count']} values, denotation has {m['count']}")
+    if not case.get("fetch"):
+        for kind, got in (i.get("counts") or {}).items():
+            if got != m["count"]:
+                return ("count-" + kind, f"path `{case['pathText']}`: the {'exactCount' if kind == 'exact' else 'minCount'} constraint counts {got} values, the denotation has {m['count']} (a value reached by several routes is one value)")
+        if m["count"] > 0 and "exact" not in (i.get("counts") or {}):
+            return ("count-exact", f"path `{case['pathText']}`: exactCount 0 is not reported although the denotation has {m['count']} values")
     if not case.get("fetch") and "dup" in i and i["dup"] != m["dup"]:
         return ("array", f"path `{case['pathText']}` from {case['focus']}: uniqueValues {'reports' if i['dup'] else 'does not report'} the node, but the array of reached values (one entry per route, {m['routes']} entries) "
                          f"{'holds' if m['dup'] else 'does not hold'} a value twice: the array the constraint is applied to is not the path's denotation")
